@@ -78,7 +78,7 @@ def install(ctx, repo, probes):
               "rec/last-printable-point", "diff/nominal-offset2-other-zone",
               "shift/print-strftime-fallback-week-date", "diff/plain", "diff/offsets",
               "diff/as-total", "diff/negative", "diff/print-format",
-              "diff/tiny-seconds", "diff/zero", "diff/zero-as-total",
+              "diff/tiny-seconds", "malformed/empty-item", "diff/zero", "diff/zero-as-total",
               "diff/same-nominal-offsets-both-sides", "total/zero", "rec/forward", "rec/reverse",
               "total/duration", "malformed/exit", "child/ok",
               "child/malformed"):
@@ -1012,6 +1012,19 @@ def make_ctime(rng):
             "nontrivial": True}
 
 
+def empty_item_cases():
+    """an empty (or blank) item in every positional slot is malformed too"""
+    good = "2000-01-01T00:00:00Z"
+    for g in ("", " "):
+        for argv in ([g], [g, good], [good, g], [g, "--offset", "P1D"],
+                     [g, "--utc"], [g, "-f", "CCYY"],
+                     ["ref", "--ref", g], [g, "--calendar", "360day"]):
+            yield {"op": "run", "argv": argv, "env": {}, "local": [0, 0],
+                   "expect": {"malformed": True},
+                   "classes": ["malformed/exit", "malformed/empty-item"],
+                   "nontrivial": True}
+
+
 def make_malformed(rng):
     good = "2000-01-01T00:00:00Z"
     g = rng.choice(GARBAGE)
@@ -1171,7 +1184,8 @@ def workload(ctx, repo):
         for case in rec_edge_cases():
             ctx.case = case
             run_case(ctx, repo, case)
-        for case in itertools.chain(diff_zone_cases(), tiny_diff_cases()):
+        for case in itertools.chain(diff_zone_cases(), tiny_diff_cases(),
+                                    empty_item_cases()):
             ctx.case = case
             run_case(ctx, repo, case)
         for case in week_date_fallback_cases():
